@@ -169,7 +169,22 @@ func runVecHistory(r *rand.Rand, p vecParams, o vecHistOpts, t *Trace) *Case {
 		emitDump()
 	}
 	emptyBM := emptyBitmapBytes()
+	// a builder kept across the history: a search object holds a query, not a snapshot of the index, so
+	// executing it again after adds / removals must answer for the index as it is then
+	var held comet.VectorSearch
+	var heldEmit func(code int, res []comet.VectorResult) func(c *Case)
 	for step := 0; step < o.nops; step++ {
+		if held != nil && r.Intn(5) == 0 {
+			var hres []comet.VectorResult
+			var herr error
+			hpan := catchPanic(func() { hres, herr = held.Execute() })
+			hcode := errCode(herr)
+			if hpan {
+				hcode = 12
+			}
+			ops = append(ops, heldEmit(hcode, hres))
+			t.Stat("vec.search_builder_kept_across_history")
+		}
 		if step == o.nops-1 || r.Intn(3) == 0 {
 			emitDump()
 		}
@@ -194,6 +209,7 @@ func runVecHistory(r *rand.Rand, p vecParams, o vecHistOpts, t *Trace) *Case {
 			t.Stat("vec.reload")
 			if re == nil {
 				idx = fresh // continuation history runs on the reloaded index
+				held = nil
 				kept := resident[:0]
 				for _, lv := range resident {
 					if !removed[lv.id] {
@@ -555,7 +571,21 @@ func runVecHistory(r *rand.Rand, p vecParams, o vecHistOpts, t *Trace) *Case {
 				}
 			})
 			t.Stat("vec.search")
-			if code == 0 && !pan && r.Intn(5) == 0 {
+			reuse := code == 0 && !pan && r.Intn(5) == 0 // the builder is re-configured below
+			if r.Intn(6) == 0 && !reuse {
+				held = s
+				hq, hn, hd, hk, hthr, hagg, hcut, hnp := qs, nodes, docids, k, thr, aggz, cutoff, np
+				heldEmit = func(code int, res []comet.VectorResult) func(c *Case) {
+					return func(c *Case) {
+						c.N(4).Vecs(hq).U32s(hn).U32s(hd).N(hk).F32(hthr).N(hagg).N(hcut).N(hnp)
+						c.N(code).N(len(res))
+						for _, x := range res {
+							c.U(uint64(x.Node.ID())).F32(x.Score)
+						}
+					}
+				}
+			}
+			if reuse {
 				// the SAME builder executed again (a search is pure: it must answer as before), and once
 				// more after changing one option on it (sweeping nprobes / k on one builder is natural use)
 				res2, e2 := s.Execute()
